@@ -370,8 +370,9 @@ func expandSchemaRef(target Schema, parentRefs []string, resolver *schemaLoader,
 		return nil, err
 	}
 
-	if t == nil {
-		// guard for when continuing on error
+	if err != nil || t == nil {
+		// guard for when continuing on error: the $ref stays in place
+		// (t may have been allocated by a decoding that failed half way)
 		return &target, nil
 	}
 
